@@ -34,6 +34,7 @@ import (
 type wireWrite struct {
 	thread string
 	n      int
+	op     string // the call the thread was in (scheduled mode)
 }
 
 type conn struct {
@@ -47,12 +48,17 @@ type conn struct {
 	closeDone   bool
 	afterClosed int // bytes accepted after the transport was closed (must stay 0)
 	who         func() string
+	whoOp       func() string // the call the running thread is in ("" when unknown)
 	// one-shot transport fault: the At-th Write call (counted over all goroutines, so it hits whichever frame part the
 	// schedule puts there) accepts Accept bytes (-1 = half) and fails; the transport works again afterwards
 	fault      *faultSpec
 	nWrites    int
 	faultFired bool
 	faultOwner string
+	// wire length right after the failed write, and whether the wire then ended inside a frame (that frame can never be
+	// finished: whatever reaches the wire afterwards sits inside it)
+	faultEnd     int
+	faultDamaged bool
 	// write deadline in force on the transport and who set it: every transport write must run under the deadline its
 	// own caller put there (a control sender's finite deadline must never govern the data writer's frame)
 	wd        time.Time
@@ -100,14 +106,17 @@ func (c *conn) Write(p []byte) (int, error) {
 			n = len(p)
 		}
 		c.wire = append(c.wire, p[:n]...)
-		c.writes = append(c.writes, wireWrite{c.who(), n})
+		c.writes = append(c.writes, wireWrite{c.who(), n, c.op()})
+		c.faultEnd = len(c.wire)
+		_, unfinished := wsref.ParseAll(c.wire)
+		c.faultDamaged = len(unfinished) > 0
 		if c.fault.Timeout {
 			return n, timeoutErr{}
 		}
 		return n, errInjected
 	}
 	c.wire = append(c.wire, p...)
-	c.writes = append(c.writes, wireWrite{c.who(), len(p)})
+	c.writes = append(c.writes, wireWrite{c.who(), len(p), c.op()})
 	if !c.closeDone {
 		frames, _ := wsref.ParseAll(c.wire)
 		if len(frames) > 0 && frames[len(frames)-1].Opcode == wsref.OpClose {
@@ -115,6 +124,13 @@ func (c *conn) Write(p []byte) (int, error) {
 		}
 	}
 	return len(p), nil
+}
+
+func (c *conn) op() string {
+	if c.whoOp == nil {
+		return ""
+	}
+	return c.whoOp()
 }
 
 func (c *conn) Read(p []byte) (int, error) {
@@ -148,10 +164,10 @@ type addr struct{}
 func (addr) Network() string { return "mem" }
 func (addr) String() string  { return "mem" }
 
-func (c *conn) LocalAddr() net.Addr                { return addr{} }
-func (c *conn) RemoteAddr() net.Addr               { return addr{} }
-func (c *conn) SetDeadline(t time.Time) error      { return nil }
-func (c *conn) SetReadDeadline(t time.Time) error  { return nil }
+func (c *conn) LocalAddr() net.Addr               { return addr{} }
+func (c *conn) RemoteAddr() net.Addr              { return addr{} }
+func (c *conn) SetDeadline(t time.Time) error     { return nil }
+func (c *conn) SetReadDeadline(t time.Time) error { return nil }
 func (c *conn) SetWriteDeadline(t time.Time) error {
 	if c.sched {
 		c.wd, c.wdOwner = t, c.who()
@@ -170,6 +186,9 @@ func (c *conn) SetWriteDeadline(t time.Time) error {
 //	C     WriteControl(Close, 1000 "bye")
 //	X     Conn.Close()
 //	R     ReadMessage loop until error (answers the preloaded ping with a pong)
+//	p<n>  WritePreparedMessage of the execution's prepared Text message of n bytes (the same op twice = ONE PreparedMessage used twice)
+//	Q     WritePreparedMessage of a prepared Close message (1000 "bye")
+//	J     WriteJSON(jsonValue)
 type threadSpec struct {
 	Name string
 	Ops  []string
@@ -185,6 +204,8 @@ type scenarioSpec struct {
 	Prune    bool
 	Timeouts bool // lock-wait timeouts of WriteControl are explored as costed environment deviations
 	Fault    *faultSpec
+	Comp     bool   // permessage-deflate negotiated (data messages go through the flate writer / compressed prepared frames)
+	Feature  string // write entry point the scenario is about; appended to violation keys (<clause>/<feature>)
 }
 
 type callResult struct {
@@ -203,16 +224,30 @@ type execData struct {
 	resMu   sync.Mutex
 	cur     map[string]string // goroutine -> thread name (free-running) ; scheduled mode uses curThread
 	curName string
+	pms     map[string]*websocket.PreparedMessage // op -> its prepared message (read-only once the threads run)
+	culprit string                                // call that put the offending bytes on the wire (set by judge where it is known)
+	opOf    map[string]string                     // thread -> the call it is in (scheduled mode: one thread runs at a time)
 }
 
 func payloadFor(op string) []byte {
+	if op[0] == 'J' {
+		return []byte(jsonWant)
+	}
 	var n int
 	fmt.Sscanf(op[1:], "%d", &n)
+	if op[0] == 'p' {
+		return hl.Pattern(n, byte(len(op))^0x50)
+	}
 	return hl.Pattern(n, byte(len(op)))
 }
 
+func isDataOp(op string) bool { return op[0] == 'M' || op[0] == 'W' || op[0] == 'p' || op[0] == 'J' }
+
 func runOp(d *execData, th string, op string, setWho func()) {
 	setWho()
+	if d.c.sched {
+		d.opOf[th] = op
+	}
 	if !d.c.sched {
 		d.c.mu.Lock()
 	}
@@ -248,6 +283,10 @@ func runOp(d *execData, th string, op string, setWho func()) {
 		err = d.ws.WriteControl(websocket.CloseMessage, websocket.FormatCloseMessage(1000, "bye"), time.Time{})
 	case 'c':
 		err = d.ws.WriteMessage(websocket.CloseMessage, websocket.FormatCloseMessage(1000, "bye"))
+	case 'p', 'Q':
+		err = d.ws.WritePreparedMessage(d.pms[op])
+	case 'J':
+		err = d.ws.WriteJSON(jsonValue)
 	case 'X':
 		err = d.ws.Close()
 	case 'R':
@@ -286,7 +325,26 @@ func newExec(spec *scenarioSpec, sched bool) *execData {
 		f := wsref.Frame{Fin: true, Opcode: wsref.OpPing, Masked: spec.Server, Key: [4]byte{1, 2, 3, 4}, Len: 5, Payload: []byte("hello")}
 		d.c.preload = f.Bytes()
 	}
-	d.ws = websocket.VerifNewConn(d.c, spec.Server, 256, spec.WBuf, false)
+	d.ws = websocket.VerifNewConn(d.c, spec.Server, 256, spec.WBuf, spec.Comp)
+	d.pms = map[string]*websocket.PreparedMessage{}
+	for _, t := range spec.Threads {
+		for _, o := range t.Ops {
+			if (o[0] != 'p' && o[0] != 'Q') || d.pms[o] != nil {
+				continue
+			}
+			var pm *websocket.PreparedMessage
+			var err error
+			if o[0] == 'Q' {
+				pm, err = websocket.NewPreparedMessage(websocket.CloseMessage, closePayload())
+			} else {
+				pm, err = websocket.NewPreparedMessage(websocket.TextMessage, payloadFor(o))
+			}
+			if err != nil {
+				panic("NewPreparedMessage: " + err.Error())
+			}
+			d.pms[o] = pm
+		}
+	}
 	return d
 }
 
@@ -296,10 +354,17 @@ func judge(d *execData) (outcome, key, what string) {
 	frames, rest := wsref.ParseAll(c.wire)
 	// thread owning each byte
 	owner := make([]string, 0, len(c.wire))
+	ownerOp := make([]string, 0, len(c.wire))
 	for _, w := range c.writes {
 		for i := 0; i < w.n; i++ {
 			owner = append(owner, w.thread)
+			ownerOp = append(ownerOp, w.op)
 		}
+	}
+	if c.faultFired && c.faultDamaged && len(c.wire) > c.faultEnd {
+		// whoever writes after a transport write failed in the middle of a frame (the failing goroutine itself included)
+		d.culprit = ownerOp[c.faultEnd]
+		return "bytes-after-failed-frame", "bytes-after-failed-frame", fmt.Sprintf("transport write #%d (by %s) failed and left its frame unfinished at wire offset %d, yet %s put %d more bytes on the wire afterwards: they sit inside the unfinished frame; wire writes: %v", c.fault.At, c.faultOwner, c.faultEnd, owner[c.faultEnd], len(c.wire)-c.faultEnd, c.writes)
 	}
 	var seq []string
 	for i, f := range frames {
@@ -318,6 +383,7 @@ func judge(d *execData) (outcome, key, what string) {
 		start := len(c.wire) - len(rest)
 		for j := start; j < len(c.wire); j++ {
 			if owner[j] != c.faultOwner {
+				d.culprit = ownerOp[j]
 				return outcome, "bytes-after-failed-frame", fmt.Sprintf("transport write #%d (by %s) failed and left its frame unfinished at wire offset %d, yet %s put bytes on the wire afterwards (offset %d): they sit inside the unfinished frame; wire writes: %v", c.fault.At, c.faultOwner, start, owner[j], j, c.writes)
 			}
 		}
@@ -326,7 +392,7 @@ func judge(d *execData) (outcome, key, what string) {
 			return outcome, "wire-truncated", fmt.Sprintf("the wire ends with %d bytes that are not a whole frame although the transport was never closed: %x; writes: %v", len(rest), rest, c.writes)
 		}
 	}
-	evs, err := wsref.SenderCheck(frames, !d.spec.Server, false)
+	evs, err := wsref.SenderCheck(frames, !d.spec.Server, d.spec.Comp)
 	if err != nil {
 		// a message left unfinished at the end is acceptable only if a Close frame or a transport close cut the writer off
 		cut := c.closed || c.faultFired
@@ -342,6 +408,7 @@ func judge(d *execData) (outcome, key, what string) {
 	// nothing after a Close frame
 	for i, f := range frames {
 		if f.Opcode == wsref.OpClose && (i != len(frames)-1 || len(rest) > 0) {
+			d.culprit = ownerOp[f.End]
 			return outcome, "bytes-after-close", fmt.Sprintf("frame(s) follow the Close frame on the wire: %v rest=%d", seq, len(rest))
 		}
 	}
@@ -349,7 +416,7 @@ func judge(d *execData) (outcome, key, what string) {
 	var want [][]byte
 	for _, t := range d.spec.Threads {
 		for _, o := range t.Ops {
-			if o[0] == 'M' || o[0] == 'W' {
+			if isDataOp(o) {
 				want = append(want, payloadFor(o))
 			}
 		}
@@ -389,13 +456,34 @@ func judge(d *execData) (outcome, key, what string) {
 	hasCloser := false
 	for _, t := range d.spec.Threads {
 		for _, o := range t.Ops {
-			if o == "C" || o == "X" || o == "c" {
+			if o == "C" || o == "X" || o == "c" || o == "Q" {
 				hasCloser = true
 			}
 		}
 	}
 	if !hasCloser && !c.faultFired && k != len(want) {
 		return outcome, "data-missing", fmt.Sprintf("%d of %d data messages reached the wire", k, len(want))
+	}
+	// a data write that returned nil is entirely on the wire (one data writer: its calls complete in program order, so
+	// the messages of the calls that returned nil appear among the data messages on the wire in that order)
+	var dataEvs [][]byte
+	for _, e := range evs {
+		if !e.Control {
+			dataEvs = append(dataEvs, e.Payload)
+		}
+	}
+	pos := 0
+	for _, r := range d.results {
+		if !isDataOp(r.Op) || r.Err != "" {
+			continue
+		}
+		for pos < len(dataEvs) && !bytes.Equal(dataEvs[pos], payloadFor(r.Op)) {
+			pos++
+		}
+		if pos == len(dataEvs) {
+			return outcome, "data-missing", fmt.Sprintf("data write %s by %s returned nil but its message is not among the %d complete data messages on the wire (in call order): %v", r.Op, r.Thread, len(dataEvs), seq)
+		}
+		pos++
 	}
 	if c.foreignWD != "" {
 		return outcome, "foreign-write-deadline", c.foreignWD
@@ -428,6 +516,8 @@ func mkScenario(c *hl.Ctx, spec scenarioSpec) mc.Scenario {
 			vtime.TimeoutsEnabled = sp.Timeouts
 			d := newExec(&sp, true)
 			d.c.who = func() string { return x.CurrentThread() }
+			d.opOf = map[string]string{}
+			d.c.whoOp = func() string { return d.opOf[x.CurrentThread()] }
 			x.Data = d
 			for _, t := range sp.Threads {
 				t := t
@@ -442,6 +532,9 @@ func mkScenario(c *hl.Ctx, spec scenarioSpec) mc.Scenario {
 			d := x.Data.(*execData)
 			o, k, w := judge(d)
 			if k != "" {
+				if sp.Feature != "" {
+					k += "/" + featureOf(d, w)
+				}
 				w += "\nschedule (thread:point): " + strings.Join(x.Trace, " ")
 			}
 			return o, k, w
@@ -475,7 +568,7 @@ func specs() []scenarioSpec {
 				Threads: []threadSpec{T("D", "W70"), T("K", "P"), T("Z", "C")}, Bounds: []int{0, 1, 2}, ThBounds: []int{0, 1, 2, 3, -1}, Prune: true})
 		}
 	}
-	return l
+	return append(l, entrySpecs()...)
 }
 
 func baseSpecs() []scenarioSpec {
@@ -506,18 +599,26 @@ func baseSpecs() []scenarioSpec {
 }
 
 func run(c *hl.Ctx) {
-	c.Rule("E1: every interleaving within the reported preemption bound (-1 = unbounded, with state-key pruning) of a data writer, control-frame senders, a closer and a ping-answering reader on one real Conn, and the same with a one-shot transport write failure (expired deadline or plain error, nothing or half accepted) at every position 0..4 of the transport write history; every transport write must run under the write deadline its own caller set; scheduling points: every transport Write/Read/Close, every receive/send/select on the lock channel c.mu (R3), Lock/Unlock of writeErrMu (R1). state = distinct observable outcome (frame sequence with owning goroutine); transition = scheduling step.")
+	c.Rule("E1: every interleaving within the reported preemption bound (-1 = unbounded, with state-key pruning) of a data writer, control-frame senders, a closer and a ping-answering reader on one real Conn, and the same with a one-shot transport write failure (expired deadline or plain error, nothing or half accepted) at every position 0..4 of the transport write history; every transport write must run under the write deadline its own caller set; scheduling points: every transport Write/Read/Close, every receive/send/select on the lock channel c.mu (R3), Lock/Unlock of writeErrMu (R1). state = distinct observable outcome (frame sequence with owning goroutine); transition = scheduling step." + entryRule + histRule)
 	c.Assume("write deadlines are zero or far in the future: the lock-acquisition timeout path of WriteControl is not explored", "one data writer (the library's documented usage)", "unsynchronised accesses between scheduling points are judged by the separate free-running race-detector pass")
 	if c.Mode() == "race" {
 		racePass(c)
 		return
 	}
+	// the sequential history family first: it is short and must not be starved by the budget of the scheduled part
+	t0 := time.Now()
+	runHistories(c)
+	c.Info("history_family_wall_s", time.Since(t0).Seconds()) // informational only
 	done := map[string]int{}
+	nsched := map[string]int64{}
 	for _, sp := range specs() {
+		n0 := c.Count("schedules")
 		b := mc.Run(c, mkScenario(c, sp))
 		done[sp.Name] = b
+		nsched[sp.Name] = c.Count("schedules") - n0
 	}
 	c.Info("completed_preemption_bound_per_scenario", done)
+	c.Info("schedules_per_scenario_this_worker", nsched)
 }
 
 // ---------------------------------------------------------------- free-running pass
@@ -544,7 +645,7 @@ func racePass(c *hl.Ctx) {
 			wg.Wait()
 			// ownership is unknown in free-running mode; only frame well-formedness is judged here
 			frames, rest := wsref.ParseAll(d.c.wire)
-			if _, err := wsref.SenderCheck(frames, !sp[i].Server, false); err != nil && !strings.Contains(err.Error(), "left unfinished") {
+			if _, err := wsref.SenderCheck(frames, !sp[i].Server, sp[i].Comp); err != nil && !strings.Contains(err.Error(), "left unfinished") {
 				c.Violation("wire-invalid", "free-running pass: "+err.Error(), nil)
 			}
 			if len(rest) > 0 && !d.c.closed && !d.c.faultFired {
@@ -556,6 +657,11 @@ func racePass(c *hl.Ctx) {
 }
 
 func replay(c *hl.Ctx, raw json.RawMessage) {
+	var hc histCase
+	if err := json.Unmarshal(raw, &hc); err == nil && hc.Family != "" {
+		replayHistory(c, hc)
+		return
+	}
 	var rc mc.ReplayCase
 	if err := json.Unmarshal(raw, &rc); err != nil {
 		panic(err)
